@@ -695,6 +695,11 @@ class Controller:
                 if component.isAlive() and not component.finishCalled:
                     self.log.warning('Stopping component %s' % component.specification.reference)
                     try:
+                        if component not in self.comp_staged_in:
+                            # VV: Nobody observes a component that was never staged-in (e.g. a pending consumer when
+                            #     the stage-completion hook stops the stage): its final state must be recorded too
+                            self._fake_finish_with_state(component, experiment.model.codes.SHUTDOWN_STATE)
+                            continue
                         #This set component.finishCalled to True
                         #Can be used to filter if a POSTMORTEM transition should be handled
                         component.finish(experiment.model.codes.SHUTDOWN_STATE)
